@@ -136,6 +136,13 @@ def _find_module(string, path=None, full_name=None, is_global_search=True):
     spec = None
     loader = None
 
+    # importlib remembers path entries for which no finder could be created
+    # (e.g. a directory that did not exist yet) as None and never looks at
+    # them again. This process is long-lived, so forget those.
+    for entry in (sys.path if path is None else path):
+        if sys.path_importer_cache.get(entry, False) is None:
+            del sys.path_importer_cache[entry]
+
     for finder in sys.meta_path:
         if is_global_search and finder != importlib.machinery.PathFinder:
             p = None
